@@ -71,11 +71,13 @@ func (p *packageParse) unpack(data []byte) (msgs []*Message, err error) {
 			return count == 2
 		})
 		if index == len(data)-1 {
+			// data是读缓冲区 会被下一次读覆盖 报文需要自己的副本
+			frame := bytes.Clone(data)
 			jtMsg := jt808.NewJTMessage()
-			if err := jtMsg.Decode(data); err != nil {
-				return nil, fmt.Errorf("%w [%x]", err, data)
+			if err := jtMsg.Decode(frame); err != nil {
+				return nil, fmt.Errorf("%w [%x]", err, frame)
 			}
-			msg := newTerminalMessage(jtMsg, data)
+			msg := newTerminalMessage(jtMsg, frame)
 			return []*Message{msg}, nil
 		}
 	}
@@ -93,7 +95,8 @@ func (p *packageParse) unpack(data []byte) (msgs []*Message, err error) {
 		if end == -1 {
 			break
 		}
-		originalData := p.historyData[:end]
+		// historyData后续会被截断复用 报文需要自己的副本
+		originalData := bytes.Clone(p.historyData[:end])
 		jtMsg := jt808.NewJTMessage()
 		if err := jtMsg.Decode(originalData); err != nil {
 			p.historyData = p.historyData[end:]
